@@ -53,6 +53,30 @@ CLAIMED = {
         text="Engine._perform_subscription (async generator, ghost output sequence): parsing/validation errors or a refused request yield exactly one errors-only response and never create the source stream; otherwise the yielded sequence equals map(execute against the event) over the source's events, in order, each event executed as a fresh request with exactly the request's arguments (loop invariant over the consumed prefix). create_source_event_stream: a refused request does not call the registered source; otherwise the source is called with the arguments coerced from the request's coerced variable map.",
         ref="DESIGN.md section 4 C14",
         note="Async-generator protocol assumed (events delivered in order, generator ends with the source); the per-event response is whatever execute returns (C01/C02/C18 contracts); Subscription.bake wiring and directive generators are not under contract."),
+    'C05': dict(
+        text="Literal path of argument coercion: the null/variable wrapper (absent -> invalid, `null` -> null, a variable contributes its coerced runtime value, missing variable or null at a non-null position -> invalid, other literals go to the wrapped coercer with the same variables), the literal non-null layer (sets the non-null flag), literal_directives_coercer (forwards variables, path and the non-null flag; hooks run exactly when due and their value is used), the per-field rule of input-object literals (absent entry or variable without value -> default / invalid / skipped), is_missing_variable; and rule 5.8.5 (AreTypesCompatible, IsVariableUsageAllowed) which keeps ill-typed variables out of argument positions.",
+        ref="DESIGN.md section 4 C05",
+        note="Not under contract in this revision: coerce_arguments / argument_coercer, the literal scalar / enum / list / input-object coercer bodies and get_literal_coercer, hence no literal=variable lemma over the whole type structure (only the C10 leaf lemmas). Variables nested in list/object literals are not covered by rule 5.8.5 in the code (deviation D6 of DESIGN section 5, not decided by a failing obligation here)."),
+    'C06': dict(
+        text="Rule layer, no_false_reject half, for the functions that decide rule 5.8.5 (_validate_type_compatibility == AreTypesCompatible, _validate_usage == IsVariableUsageAllowed, _find_variable_by_name == first definition of that name in THIS operation) and rule 5.5.2.3 (_validate_node: impossible only when the condition is an existing composite type whose possible types do not overlap the parent's; _validate_spreads: reports only when some site is impossible); valid requests reach execute (_perform_query).",
+        ref="DESIGN.md section 4 C06/C07, Appendix A",
+        note="Only 2 of the 26 rules have their deciding functions under contract; the context layer of the AST builder is covered by the frame pass only (C16). Known deviations D2 (false cycle reports) and D7 are NOT rediscovered by an obligation in this revision: C06 is claimed for the functions listed, nothing more."),
+    'C07': dict(
+        text="Rule layer, no_false_accept half, for the same functions as C06 (an ill-typed variable usage or an impossible spread at ANY site yields an error), plus the short-circuit: parse_and_validate_query turns validator errors / any parser failure into non-empty errors and _perform_query answers such requests without calling execute, so no resolver or field-level hook runs.",
+        ref="DESIGN.md section 4 C06/C07, Appendix A",
+        note="As C06: 2 of 26 rules; deviations D3-D8 are not rediscovered by obligations in this revision."),
+    'C08': dict(
+        text="(i) list_coercer_sequentially and list_coercer_concurrently satisfy literally the same contract (positional results, every item failure gathered), extract_exceptions_from_results, coerce_variables and input_object_coercer merge positionally (loop invariants over zip); (ii) structural obligations over the request cone: every asyncio.gather whose awaitables may raise uses return_exceptions=True (so it returns only when all of them have finished and loses no failure), no create_task / ensure_future / as_completed anywhere (every started coroutine is awaited in place).",
+        ref="DESIGN.md section 4 C08",
+        note="execute_fields' positional merge is NOT under an SMT contract in this revision (only the gather rule covers it); no schedule is enumerated; termination is not decided; 'none is started twice under every schedule' follows only from the once-per-call-site contracts (C01/C09/C13)."),
+    'C12': dict(
+        text="_validate_schema_named_types reports at least one error exactly when some field of a type that has fields (objects AND interfaces) names an undefined type (nested loop invariants); _validate_field_type_is_same_as_interface_type equals the interface-conformance predicate (same type, non-null version of a compatible type, or possible type of a plain named interface; list / non-null interface types admit nothing else) by the recursive callee contract; reduce_type strips every wrapper.",
+        ref="DESIGN.md section 4 C12, Appendix B",
+        note="Only these rules are under contract; the other _validate_* rules, _validate (aggregator), redefinition guards, extension validators and Engine.cook are not. lark raising on syntax errors is external."),
+    'C13': dict(
+        text="resolve_field_value_or_error: the query-side on_field_execution directives of EVERY merged field node are computed (loop invariant) and wrapped around the baked resolver, which is called exactly once with the parent value, the coerced arguments of the first node (from the coerced variable map), the caller's context and info; input / literal / output directive wrappers call their hook chain exactly when due, with the coerced value, and use what it returns; top-level variables skip type-level hooks on the literal path (already applied at variable coercion) but input-field hooks still run.",
+        ref="DESIGN.md section 4 C13",
+        note="wraps_with_directives (fold order), directive_executor and the bake() wiring of the type classes are not under contract in this revision; user hooks are opaque."),
 }
 
 REASON_PENDING = "contracts for this property are not in place in this revision (DESIGN.md section 8 delivery order); no other technique is substituted"
@@ -94,7 +118,9 @@ def main():
         print('jsonschema not available; manifest written unvalidated')
 
 
-NA = {}
+NA = {
+    'C11': "not applicable to this family here: 'any valid SDL builds and introspection reports exactly what was declared' runs through the lark grammar, 1 900 lines of tree transformers and GraphQLSchema.bake (I/O, decorators, dozens of mutually dependent bake methods); no contract within reach of the pyvc subset expresses 'the AST is the parse of the text', and the introspection resolver layer alone was judged too thin to claim the property (DESIGN.md section 4 C11). reduce_type, used by bake, is under contract in C12.",
+}
 
 if __name__ == '__main__':
     main()
